@@ -108,6 +108,9 @@ func concretiseLF(c genCase) (src string, expr string, err error) {
 			}
 		}
 		return "package main\n\ntempl " + sig + " {\n\t<p>x</p>\n}\n", sig, nil
+	case "twodecls":
+		// both templates start on source line 2; the second one after the closing brace of the first
+		return "package main\n\ntempl " + e + "() { <p>a</p> } templ t2() { <i>b</i> }\n", e + "()", nil
 	case "csssig":
 		var sig string
 		if len(c.Shape) == 1 {
